@@ -73,14 +73,21 @@ def generate(prop, rng):
         "links_arg": rng.random() < 0.6,  # else apply() takes them from odb.cache_types
         "relink": rng.random() < 0.25,  # compare(relink=True): unchanged files are re-created too
         "own_storage": rng.random() < 0.25,  # one explicit target file lives in a second cache, registered at its own key
+        "old_via": rng.choice(["md5", "entries"]),  # how the index of the prior workspace is built
     }
+    # some prior paths are symbolic links left by an earlier symlink-type checkout: into the cache
+    # (object still there) or dangling (object collected since)
+    prior_kinds = {}
+    if prior and rng.random() < 0.3:
+        for rel in rng.sample(sorted(prior), rng.randint(1, min(3, len(prior)))):
+            prior_kinds[rel] = rng.choice(["dangling", "dangling", "symlink"])
     evict = []
     if rng.random() < 0.25:
         files = sorted(target)
         evict = rng.sample(files, rng.randint(1, min(2, len(files))))
     return {
         "prop": prop, "cfg": cfg, "contents": [gen.enc(b) for b in pool],
-        "prior": prior, "target": target, "lazy": lazy, "evict": evict,
+        "prior": prior, "target": target, "lazy": lazy, "evict": evict, "prior_kinds": prior_kinds,
         "evict_dir": lazy is not None and rng.random() < 0.15,
     }
 
@@ -105,11 +112,13 @@ def valid(sc):
         return False
     if not sc["cfg"].get("explicit_dirs", True):
         return False
+    if any(r not in sc["prior"] for r in sc.get("prior_kinds", {})):
+        return False
     return all(e in sc["target"] for e in sc.get("evict", []))
 
 
 def shrink_paths(sc):
-    return [("dict", ("prior",)), ("dict", ("target",)), ("list", ("evict",))]
+    return [("dict", ("prior",)), ("dict", ("target",)), ("list", ("evict",)), ("dict", ("prior_kinds",))]
 
 
 def simplify(sc):
@@ -217,6 +226,17 @@ def execute(sc, ctx):
             w.raw_rm("cache", "local", foid[ci])
             idx.storage_map.add_cache(ObjectStorage(tuple(own_rel.split("/")), odb2))
             ctx.probe("file_with_own_storage")
+    for rel, kind in sorted(sc.get("prior_kinds", {}).items()):
+        ci = sc["prior"][rel][0]
+        p = os.path.join(ws, rel)
+        REAL["os.unlink"](p)
+        if kind == "symlink":
+            w.raw_add("cache", "local", foid[ci], contents[ci])
+            REAL["os.symlink"](os.path.join(w.p("cache"), foid[ci][:2], foid[ci][2:]), p)
+        else:
+            REAL["os.symlink"](os.path.join(w.p("cache"), "zz", "collected-" + foid[ci][2:]), p)
+            prior_bytes.pop(rel, None)  # holds no bytes of its own
+            ctx.probe("prior_dangling_symlink")
     unavailable = set()
     for rel in sc.get("evict", []):
         ci = target[rel][0]
@@ -236,7 +256,23 @@ def execute(sc, ctx):
         errors.append(args)
 
     idx.onerror = lambda entry, exc: errors.append(("load", entry.key if entry else None, repr(exc)))
-    old = md5(ibuild(ws, w.localfs), state=state)
+    has_dangling = "dangling" in sc.get("prior_kinds", {}).values()
+
+    def build_old():
+        """The index of the workspace as it is.  Two routes: index.build + save.md5, or (as DVC's
+        build_data_index does) build_entries(compute_hash=True).  md5() drops every entry it cannot
+        hash, so a workspace holding dangling links is always indexed the second way."""
+        if has_dangling or cfg.get("old_via") == "entries":
+            from dvc_data.index import DataIndex
+            from dvc_data.index.build import build_entries
+
+            o = DataIndex()
+            for e in build_entries(ws, w.localfs, compute_hash=True, state=state):
+                o.add(e)
+            return o
+        return md5(ibuild(ws, w.localfs), state=state)
+
+    old = build_old()
     try:
         diff = compare(old, idx, delete=cfg["delete"], relink=bool(cfg.get("relink")))
         apply(diff, ws, w.localfs, onerror=onerror, state=state,
@@ -278,6 +314,8 @@ def execute(sc, ctx):
         elif target[rel][1] and not (lazy is not None and (lazy == "" or rel.startswith(lazy + "/"))):
             if snap[rel][0] == "file" and not snap[rel][2]:
                 ctx.violate("exec-bit-missing", "explicit-entry", rel)
+            elif snap[rel][0] == "symlink" and not (REAL["os.stat"](os.path.join(ws, rel)).st_mode & 0o100):
+                ctx.violate("exec-bit-missing", "explicit-entry:symlink", rel)
     if cfg["delete"] and not unavailable:
         extra = sorted(set(files) - set(want))
         if extra:
@@ -294,7 +332,7 @@ def execute(sc, ctx):
         if own_rel is not None:
             idx2.storage_map.add_cache(ObjectStorage(tuple(own_rel.split("/")), odb2))
         try:
-            old2 = md5(ibuild(ws, w.localfs), state=state)
+            old2 = build_old()
             d2 = compare(old2, idx2, delete=True)
             left = {k: len(getattr(d2, k)) for k in ("files_create", "files_delete", "dirs_delete")}
             # the root key () is never an entry of a built (old) index, so a root
@@ -312,7 +350,11 @@ def execute(sc, ctx):
             outside = rel not in want and not any(t.startswith(rel + "/") for t in want) and not any(
                 rel.startswith(t + "/") for t in want
             )
-            if outside and files.get(rel) != data:
+            if outside and rel in sc.get("prior_kinds", {}):
+                # a link into the cache: it must still be there (its object may have been evicted by the scenario)
+                if snap.get(rel, ("",))[0] != "symlink":
+                    ctx.violate("delete-off-removed", "outside-target:symlink", f"{rel} gone or replaced")
+            elif outside and files.get(rel) != data:
                 ctx.violate("delete-off-removed", "outside-target", f"{rel} gone or changed")
     ndel = len(diff.files_delete) + len(diff.dirs_delete)
     ncre = len(diff.files_create)
